@@ -138,6 +138,10 @@ def multi_runs(ctx, pid):
         for rq, d in zip(res["requests"], res["dgrams"]):
             cases.append((c["ver"], LT_PK if c["key"] != "none" else None, nonce_of(c["ver"], rq), rq, d)); owner.append(ci)
     preds, raw = model_predict(cases) if cases else ([], [])
+    runs = [(c["ver"], LT_PK if c["key"] != "none" else None,
+             [(nonce_of(c["ver"], rq), rq, d) for rq, d in zip(res["requests"], res["dgrams"])])
+            for c, res in zip(plans, results)]
+    run_preds = model_predict_runs(runs)
     for ci, (c, res) in enumerate(zip(plans, results)):
         ctx.evaluations += 1
         ctx.count("multi:%s:%s:n=%d" % (c["ver"], c["kind"], c["n"]))
@@ -172,7 +176,10 @@ def multi_runs(ctx, pid):
                 ctx.violation("property", "client -n %d rejected an honest response (%s)" % (c["n"], c["kind"]), rep); continue
             if lead_auth < len(mine):
                 ctx.nontriv("multi:%s:%s:%d" % (c["ver"], c["kind"], c["n"]))
-        if len(times) != lead_model or (res["rc"] == 0) != want_rc0:
+        rp = run_preds[ci]
+        if rp[0] != lead_model or rp[1] != want_rc0:
+            ctx.violation("tie", "the model's client_run (%s) is not the fold of its per-response client_handle (accepts first %d, exit0=%s)" % (rp[2], lead_model, want_rc0), rep); continue
+        if len(times) != rp[0] or (res["rc"] == 0) != rp[1]:
             ctx.violation("tie", "model and client binary disagree on a -n %d run (%s): client printed %d times, rc=%d; model accepts the first %d of %d" % (c["n"], c["kind"], len(times), res["rc"], lead_model, len(mine)), rep)
         else:
             ctx.traces_validated += 1
@@ -233,6 +240,44 @@ def model_predict(cases):
     return out, second
 
 
+def model_predict_runs(runs):
+    """runs: list of (ver, pk|None, [(nonce, request, dgram|None)]) -> list of (n_outputs, exit0, raw line)
+    through the extracted client_run (the model of the whole -n loop), two-pass Ed25519 oracle"""
+    def line(run, pts="-", vfs="-"):
+        ver, pk, xs = run
+        ex = ";".join("%s:%s:%s" % (rt.hx(n), rt.hx(rq), "T" if d is None else (rt.hx(d) if d else "-")) for n, rq, d in xs)
+        return "clientrun %s %s %s %s %s" % (ver, rt.hx(pk) if pk else "-", pts, vfs, ex)
+    first = vlib.run_model([line(x) for x in runs], per_shard=10)
+    qsets = []
+    allq = {}
+    for o in first:
+        i = o.find("Q=")
+        qs = [q for q in (o[i + 2:].split(",") if i >= 0 else []) if q]
+        qsets.append(qs)
+        for q in qs:
+            allq[q] = None
+    qs = list(allq)
+    ver_out = vlib.run_impl(["edverify " + q.replace(".", " ") for q in qs])
+    pks = sorted({q.split(".")[0] for q in qs})
+    pt_out = vlib.run_impl(["edpoint " + k for k in pks])
+    pts = dict(zip(pks, pt_out)); vfs = dict(zip(qs, ver_out))
+    second_lines = []
+    for run, myq in zip(runs, qsets):
+        p = ",".join("%s:%s" % (k, pts[k]) for k in sorted({q.split(".")[0] for q in myq})) or "00:0"
+        v = ",".join("%s:%s" % (q, "1" if vfs[q] == "1" else "0") for q in myq) or "-"
+        second_lines.append(line(run, p, v))
+    second = vlib.run_model(second_lines, per_shard=10)
+    out = []
+    for o in second:
+        if o.startswith("RUN "):
+            d = dict(t.split("=", 1) for t in o.split()[1:] if "=" in t)
+            outs = [x for x in d.get("outs", "").split("|") if x]
+            out.append((len(outs), d["exit0"] == "1", o[:300]))
+        else:
+            out.append((-1, False, o[:300]))
+    return out
+
+
 def py_authentic(ver, pk, request, nonce, reply):
     """the conditions of C01 evaluated independently in Python (RFC 8032 transcription)"""
     try:
@@ -280,12 +325,14 @@ def forgeries(r, ver, honest, request, nonce, earlier):
 
     out = []
     def mod(name, path, fn):
-        g = refserver.parts(ver, honest)
-        d = g
-        for k in path[:-1]:
-            d = d[k]
-        d[path[-1]] = fn(d[path[-1]])
-        out.append((name, refserver.rebuild(ver, g)))
+        def th():
+            g = refserver.parts(ver, honest)
+            d = g
+            for k in path[:-1]:
+                d = d[k]
+            d[path[-1]] = fn(d[path[-1]])
+            return refserver.rebuild(ver, g)
+        out.append((name, th))
     mod("SIG bit", ["SIG"], flip)
     mod("SREP.MIDP bit", ["_srep", "MIDP"], flip)
     mod("SREP.RADI bit", ["_srep", "RADI"], flip)
@@ -307,27 +354,29 @@ def forgeries(r, ver, honest, request, nonce, earlier):
     mod("MIDP short", ["_srep", "MIDP"], lambda b: b[:4])
     mod("MINT above MIDP", ["_dele", "MINT"], lambda b: struct.pack("<Q", 2**63))
     mod("MAXT below MIDP", ["_dele", "MAXT"], lambda b: struct.pack("<Q", 1))
-    out.append(("truncated", honest[: r.randrange(4, len(honest))]))
-    out.append(("truncated 4", honest[: len(honest) - 4]))
-    out.append(("random mutation", flip(honest)))
-    out.append(("random mutation", flip(flip(honest))))
-    out.append(("garbage", rnd(r, r.choice([0, 3, 8, 12, 100, 432]))))
+    out.append(("truncated", lambda: honest[: r.randrange(4, len(honest))]))
+    out.append(("truncated 4", lambda: honest[: len(honest) - 4]))
+    out.append(("random mutation", lambda: flip(honest)))
+    out.append(("random mutation", lambda: flip(flip(honest))))
+    out.append(("garbage", lambda: rnd(r, r.choice([0, 3, 8, 12, 100, 432]))))
     g = refserver.parts(ver, honest); del g["CERT"], g["_cert"]["DELE"]
     # drop a required field
     g2 = refserver.parts(ver, honest)
     top = {k: v for k, v in g2.items() if not k.startswith("_") and k != "INDX"}
     order = ["SIG", "NONC", "PATH", "SREP", "CERT"]
     msg = rt.encode([(t, top[t]) for t in order])
-    out.append(("missing INDX", msg if ver == "Google" else rt.frame(msg)))
+    out.append(("missing INDX", lambda: msg if ver == "Google" else rt.frame(msg)))
     # fully re-signed by a different long-term key (attacker's own keys)
-    out.append(("re-signed by another long-term key", refserver.respond(ver, LT2, OK2, [(request, nonce)], 0, 1700000000 * (10**6 if ver == "Google" else 1))))
+    out.append(("re-signed by another long-term key", lambda: refserver.respond(ver, LT2, OK2, [(request, nonce)], 0, 1700000000 * (10**6 if ver == "Google" else 1))))
     # cross-protocol splice: a reply built for the other protocol
     other = "RfcDraft13" if ver == "Google" else "Google"
-    out.append(("cross-protocol reply", refserver.respond(other, LT, OK1, [(request, nonce)], 0, 1700000000)))
+    out.append(("cross-protocol reply", lambda: refserver.respond(other, LT, OK1, [(request, nonce)], 0, 1700000000)))
     # SREP signed under the delegation context / CERT under the other protocol's context
-    gg = refserver.parts(ver, honest)
-    gg["_cert"]["SIG"] = ed25519.sign(LT, refserver.CTX_DELE[other] + gg["_cert"]["DELE"])
-    out.append(("CERT signed under the other protocol's context", refserver.rebuild(ver, gg)))
+    def other_ctx():
+        gg = refserver.parts(ver, honest)
+        gg["_cert"]["SIG"] = ed25519.sign(LT, refserver.CTX_DELE[other] + gg["_cert"]["DELE"])
+        return refserver.rebuild(ver, gg)
+    out.append(("CERT signed under the other protocol's context", other_ctx))
     # validly signed by the pinned key's holder but semantically wrong: the midpoint just outside /
     # exactly on the edge of the delegation window (with the usual and with a huge radius), the
     # response signature made under the delegation context, the reply for the co-request
@@ -341,21 +390,23 @@ def forgeries(r, ver, honest, request, nonce, earlier):
                    ("signed: MINT = MIDP+3, RADI 5", dict(mint=midp + 3, radi=5)),
                    ("signed: window = [MIDP, MIDP] (authentic)", dict(mint=midp, maxt=midp)),
                    ("signed: window = [MIDP, MIDP], RADI max (authentic)", dict(mint=midp, maxt=midp, radi=2**32 - 1))):
-        out.append((nm, refserver.respond(ver, LT, OK1, batch2, 1, midp, **kw)))
-    out.append(("signed reply for the co-request", refserver.respond(ver, LT, OK1, batch2, 0, midp)))
-    gs = refserver.parts(ver, honest)
-    gs["SIG"] = ed25519.sign(OK1, refserver.CTX_DELE[ver] + gs["SREP"])
-    out.append(("SREP signed under the delegation context", refserver.rebuild(ver, gs)))
+        out.append((nm, lambda kw=kw: refserver.respond(ver, LT, OK1, batch2, 1, midp, **kw)))
+    out.append(("signed reply for the co-request", lambda: refserver.respond(ver, LT, OK1, batch2, 0, midp)))
+    def srep_dele_ctx():
+        gs = refserver.parts(ver, honest)
+        gs["SIG"] = ed25519.sign(OK1, refserver.CTX_DELE[ver] + gs["SREP"])
+        return refserver.rebuild(ver, gs)
+    out.append(("SREP signed under the delegation context", srep_dele_ctx))
     # replay of an earlier genuine response (for another request)
     for e in earlier[-2:]:
-        out.append(("replay of an earlier genuine response", e))
+        out.append(("replay of an earlier genuine response", lambda e=e: e))
     if ver == "RfcDraft13":
         b = bytearray(honest); b[0] ^= 1
-        out.append(("frame magic bit", bytes(b)))
+        out.append(("frame magic bit", lambda b=bytes(b): b))
         b = bytearray(honest); struct.pack_into("<I", b, 8, 5000)
-        out.append(("frame length 5000", bytes(b)))
+        out.append(("frame length 5000", lambda b=bytes(b): b))
         b = bytearray(honest); struct.pack_into("<I", b, 8, 8)
-        out.append(("frame length 8", bytes(b)))
+        out.append(("frame length 8", lambda b=bytes(b): b))
     return out
 
 
@@ -481,7 +532,8 @@ def run_c01(ctx):
                     if k == 0:
                         return ("honest", honest)
                     fs = forgeries(r, ver, honest, req, nonce, earlier)
-                    return fs[(k - 1) % len(fs)]
+                    name, th = fs[(k - 1) % len(fs)]
+                    return (name, th())
                 plan.append({"ver": ver, "key": key, "pk": LT_PK, "maker": maker})
         # without a key: never verified
         for k in range(4):
@@ -539,10 +591,17 @@ def run_c03(ctx):
 
 
 def real_server_runs(ctx):
+    # default batch size, and a small one so that -n 9 / -n 40 requests span several passes of the
+    # server's drain loop within one wake-up
+    for bs in (64, 4):
+        real_server_runs_bs(ctx, bs)
+
+
+def real_server_runs_bs(ctx, batch_size):
     import tempfile, time, signal
-    port = 20000 + (os.getpid() * 7 + ctx.seed) % 20000
+    port = 20000 + (os.getpid() * 7 + ctx.seed + batch_size) % 20000
     cfg = os.path.join(vlib.BUILD, "c03-%d.cfg" % os.getpid())
-    open(cfg, "w").write("interface: 127.0.0.1\nport: %d\nseed: %s\nbatch_size: 64\nnum_workers: 1\n" % (port, LT.hex()))
+    open(cfg, "w").write("interface: 127.0.0.1\nport: %d\nseed: %s\nbatch_size: %d\nnum_workers: 1\n" % (port, LT.hex(), batch_size))
     srv = subprocess.Popen([vlib.SERVER_BIN, cfg], stdout=subprocess.DEVNULL, stderr=subprocess.DEVNULL)
     try:
         time.sleep(0.6)
@@ -559,7 +618,7 @@ def real_server_runs(ctx):
                     times = [l for l in p.stdout.splitlines() if l and l[0].isdigit()]
                     rep = {"cmd": "client-vs-server", "args": args[1:], "rc": p.returncode, "stdout": p.stdout[-400:], "stderr": p.stderr[-600:]}
                     if p.returncode != 0 or len(times) != n:
-                        ctx.violation("property", "client rejected an honest response of the real server (-p %s, key %s, %d requests): rc=%d, %d times printed" % (ver, "yes" if key else "no", n, p.returncode, len(times)), rep)
+                        ctx.violation("property", "client rejected an honest response of the real server (batch_size %d, -p %s, key %s, %d requests): rc=%d, %d times printed" % (batch_size, ver, "yes" if key else "no", n, p.returncode, len(times)), rep)
                         continue
                     if ("verified=Yes" in p.stderr) != bool(key) or ("verified=No" in p.stderr) != (not key):
                         ctx.violation("property", "verified flag does not match whether a key was supplied", rep); continue
@@ -567,7 +626,7 @@ def real_server_runs(ctx):
                         ctx.violation("property", "printed time is not the server's midpoint", rep); continue
                     idxs = sorted(int(x.split(")")[0]) for x in p.stderr.split("merkle_index=")[1:])
                     if n > 1 and max(idxs) >= 1:
-                        ctx.nontriv("real:%s:%s:%d" % (ver, bool(key), n))
+                        ctx.nontriv("real:%s:%s:%d:b%d" % (ver, bool(key), n, batch_size))
                     ctx.traces_validated += 1
     finally:
         srv.send_signal(signal.SIGTERM)
